@@ -93,9 +93,11 @@ func (c *chain) NetMap() (*netmap.NetMap, error) {
 	nm.SetNodes(c.u.NodeInfo[:])
 	return &nm, nil
 }
-func (c *chain) GetEpochBlock(epoch uint64) (uint32, error)   { return uint32(epoch * EpochDuration), nil }
-func (c *chain) GetEpochBlockByTime(uint32) (uint32, error)   { return Epoch * EpochDuration, nil }
-func (c *chain) ServerInContainer(cid.ID) (bool, error)       { return true, nil }
+func (c *chain) GetEpochBlock(epoch uint64) (uint32, error) {
+	return uint32(epoch * EpochDuration), nil
+}
+func (c *chain) GetEpochBlockByTime(uint32) (uint32, error)      { return Epoch * EpochDuration, nil }
+func (c *chain) ServerInContainer(cid.ID) (bool, error)          { return true, nil }
 func (c *chain) HasUserInNNS(string, util.Uint160) (bool, error) { return false, nil }
 
 // InvokeContainedScript "runs" an N3 witness: accepted iff the script starts
@@ -106,7 +108,9 @@ func (c *chain) InvokeContainedScript(tx *transaction.Transaction, _ *block.Head
 	return &result.Invoke{State: "HALT", Stack: []stackitem.Item{stackitem.NewBool(ok)}}, nil
 }
 
-func (c *chain) containerKeys() [][]byte { return [][]byte{c.u.Node.Pub, c.u.Remote.Pub, c.u.CnrNode.Pub} }
+func (c *chain) containerKeys() [][]byte {
+	return [][]byte{c.u.Node.Pub, c.u.Remote.Pub, c.u.CnrNode.Pub}
+}
 
 func (c *chain) ForEachContainerNodePublicKey(id cid.ID, f func([]byte) bool) error {
 	if c.cnr(id) == nil {
@@ -270,7 +274,9 @@ func (nopSplitVerifier) VerifySplit(context.Context, cid.ID, oid.ID, []object.Me
 
 type nopTombVerifier struct{}
 
-func (nopTombVerifier) VerifyTombStoneWithoutPayload(context.Context, object.Object) error { return nil }
+func (nopTombVerifier) VerifyTombStoneWithoutPayload(context.Context, object.Object) error {
+	return nil
+}
 
 type nopPostPlacement struct{}
 
@@ -278,7 +284,7 @@ func (nopPostPlacement) HandlePostPlacement(*object.Object, []netmap.NodeInfo) {
 
 type noSessions struct{}
 
-func (noSessions) GetToken(user.ID) *statesession.PrivateToken                     { return nil }
+func (noSessions) GetToken(user.ID) *statesession.PrivateToken                       { return nil }
 func (noSessions) FindTokenBySubjects([]sessionv2.Target) *statesession.PrivateToken { return nil }
 
 // handlers implements object.Handlers like cmd/neofs-node's objectSvc, logging every call.
@@ -446,5 +452,5 @@ func (engineMetrics) AddToPayloadCounter(string, int64)                {}
 type srvMetrics struct{}
 
 func (srvMetrics) HandleOpExecResult(stat.Method, bool, time.Duration) {}
-func (srvMetrics) AddPutPayload(int)                                  {}
-func (srvMetrics) AddGetPayload(int)                                  {}
+func (srvMetrics) AddPutPayload(int)                                   {}
+func (srvMetrics) AddGetPayload(int)                                   {}
